@@ -7,6 +7,7 @@
    abbrev <id> <a>         -> decimal uint64  immsucc <id> <a> -> hex     split <id> -> nil|set
    heap <id> <k1,k2,...>   -> keys in pop order, comma separated
    kv <id> <op;op;...>     -> results of the read ops, ';' separated (see below)
+   dblist|dbrscan <id> <phase> <k1,k2,...> <lo> <hi> -> n:key,...   (kv_range_scan over the map of the keys)
    big <id> ...            -> ok   (data sets too large for the list model: checked in the harness only)
    kv ops:  B begin batch | P:k:tag put | D:k delete | X:lo:hi delete-range | K commit | A abort
             F flush | C compact | R reopen | V:min:max value sizes          (no-ops for the model)
@@ -72,6 +73,10 @@ let () = read_lines (fun line ->
     let l = List.map bytes_of_hex (split_on ',' ks) in
     Printf.printf "%s %s\n" id (String.concat "," (List.map hex_of_bytes (M.key_sort l)))
   | ["kv"; id; ops] -> Printf.printf "%s %s\n" id (run_kv ops)
+  | [("dblist" | "dbrscan"); id; _phase; ks; lo; hi] ->
+    (* DB-layer list / range-scan: the user keys of [lo,hi) of the sorted map built from ks *)
+    let m = List.fold_left (fun m k -> M.sm_put (bytes_of_hex k) M.N0 m) M.sm_empty (split_on ',' ks) in
+    Printf.printf "%s %s\n" id (keys_str (M.kv_range_scan (bytes_of_hex lo) (bytes_of_hex hi) m))
   | "big" :: id :: _ -> Printf.printf "%s ok\n" id
   | [] | [""] -> ()
   | _ -> Printf.printf "?? bad line: %.200s\n" line)
